@@ -227,24 +227,68 @@ def r3(ctx, facts):
         all(is_call(strip(c["args"][5], casts=True), r"TransitEvent::log_level$") for c in ap)
     ctx.ob("C16.R3e", "_write_log_statement:effective-level", ok,
            "the sink's filters and write_log receive the event's effective level (dynamic level when given)", fn=w)
-    # override: formatted statement from the override formatter is what is written when the sink has one
+    # override: which line reaches write_log. Definitions of the written variable are classified by their source: the logger's formatted
+    # statement, or the visited sink's override formatter; anything else is a violation.
     inits = w.var_inits()
-    written = var_ref(wl[0]["args"][11])
-    asg = w.assignments_to_var(written) if written is not None else []
-    ok = written is not None and written in inits and bool(asg) and \
-        all(any(is_call(x, r"PatternFormatter::format$") for x in walk(a["rhs"])) and
-            any(x["k"] == "MemberExpr" and x.get("mname") == "_override_pattern_formatter" for x in walk(a["rhs"])) for a in asg)
     g = w.g
-    if ok:
-        ob = []
-        for bid, b in g.blocks.items():
-            c = g.term_cond(bid)
-            if c is not None and any(x["k"] == "MemberExpr" and x.get("mname") == "_override_pattern_formatter_options" for x in walk(c)):
-                core, neg = core_and_neg(c)
-                ob.append((bid, "F" if neg else "T"))
-        ok = bool(ob) and not g.exists_path([g.entry_node], npos(w, asg), avoid_edges=ob)
+    written = var_ref(wl[0]["args"][11])
+    if written is None:
+        raise AnalysisBroken("_write_log_statement: the statement argument of write_log is not a variable — a shape no accepted idiom covers")
+    logger_line = None
+    for vid, i in inits.items():
+        if isnode(i) and any(is_call(x, r"PatternFormatter::format$") for x in walk(i)) and \
+                any(x["k"] == "MemberExpr" and x.get("mname") == "pattern_formatter" for x in walk(i)):
+            logger_line = vid
+    defs = []  # (positions, kind)
+    def kind_of(rhs):
+        if isnode(rhs) and any(is_call(x, r"PatternFormatter::format$") for x in walk(rhs)) and \
+                any(x["k"] == "MemberExpr" and x.get("mname") == "_override_pattern_formatter" and on_loopvar(x.get("base")) for x in walk(rhs)):
+            return "override"
+        if isnode(rhs) and any(is_call(x, r"PatternFormatter::format$") for x in walk(rhs)) and \
+                any(x["k"] == "MemberExpr" and x.get("mname") == "pattern_formatter" for x in walk(rhs)):
+            return "logger"
+        if rhs is not None and logger_line is not None and var_ref(rhs) == logger_line:
+            return "logger"
+        return "other"
+    if written == logger_line:
+        dk = [(g.pos_of(lambda n: isnode(n) and n.get("k") in ("Var", "DeclStmt") and (n.get("did") == written or any(d.get("did") == written for d in n.get("decls") or []))), "logger")]
+    elif written in inits and inits[written] is not None and not (
+            isnode(strip(inits[written], casts=True)) and strip(inits[written], casts=True)["k"] == "CXXConstructExpr" and not strip(inits[written], casts=True).get("args")):
+        # (a default-constructed declaration sets no line: the assignments below must cover every path)
+        dk = [(g.pos_of(lambda n: isnode(n) and n.get("k") in ("Var", "DeclStmt") and (n.get("did") == written or any(d.get("did") == written for d in n.get("decls") or []))), kind_of(inits[written]))]
+    else:
+        dk = []
+    for a_ in w.assignments_to_var(written):
+        rhs = a_.get("rhs") if a_["k"] == "BinaryOperator" else (a_["args"][1] if len(a_.get("args") or []) > 1 else None)
+        dk.append((g.positions(a_), kind_of(rhs)))
+    d_over = sorted(set(p for ps, k in dk if k == "override" for p in ps))
+    d_log = sorted(set(p for ps, k in dk if k == "logger" for p in ps))
+    d_other = sorted(set(p for ps, k in dk if k == "other" for p in ps))
+    ob = []
+    for bid, b in g.blocks.items():
+        c = g.term_cond(bid)
+        if c is not None and any(x["k"] == "MemberExpr" and x.get("mname") == "_override_pattern_formatter_options" and on_loopvar(x.get("base")) for x in walk(c)):
+            core, neg = core_and_neg(c)
+            ob.append((bid, "F" if neg else "T"))  # label of 'this sink has an override pattern'
+    app, wlp = npos(w, ap), npos(w, wl)
+    ok = bool(ob) and bool(d_over) and not d_other and \
+        not g.exists_path([g.entry_node], d_over, avoid_edges=ob) and \
+        all(not g.exists_path([tnode(g, b)], wlp, avoid_nodes=d_over, avoid_edges=[(b, other(l))]) for (b, l) in ob) and \
+        not any(g.exists_path([p], wlp, avoid_nodes=app) and g.exists_path(d_over, [p], avoid_nodes=app) for p in d_log)
     ctx.ob("C16.R3f", "_write_log_statement:override-pattern", ok,
-           "a sink with an override pattern receives the line formatted by its own formatter, every other sink the logger's", fn=w)
+           "a sink with an override pattern receives the line formatted by its own formatter: the override line is produced only "
+           "under 'this sink has an override', reaches write_log on every path from there, and is not replaced by the logger's line "
+           "on the way", fn=w)
+    # R3g: the line is chosen afresh for every sink
+    alld = sorted(set(d_over) | set(d_log))
+    stale = g.exists_path(app, wlp, avoid_nodes=alld) if written != logger_line else False
+    plain = all(not g.exists_path([tnode(g, b)], wlp, avoid_nodes=d_log + app, avoid_edges=[(b, l)]) or
+                # the logger's line may have been set before the override test within the same iteration
+                not g.exists_path(app, [tnode(g, b)], avoid_nodes=d_log) for (b, l) in ob) if written != logger_line else not d_over
+    ctx.ob("C16.R3g", "_write_log_statement:line-chosen-per-sink", bool(alld) and not stale and plain and not d_other,
+           "the line handed to write_log is chosen afresh for each sink — on every path from that sink's filter test to its write it "
+           "is set, and without an override it is the logger's formatted statement — so a sink without an override never receives "
+           "the line an earlier sink's override produced (set on every path: %s, logger's line without override: %s)" % (not stale, plain), fn=w)
 
 
 def r4(ctx, facts):
